@@ -109,12 +109,23 @@ def unescape(body: str) -> str:
         elif c == "u":
             j = body.index("}", i)
             v = int(body[i + 3:j], 16)
-            if v > 0x10FFFF:
-                raise DenoteError("code point out of range")
+            if v > 0x10FFFF or 0xD800 <= v <= 0xDFFF:
+                # pest builds a Rust `char`: only Unicode scalar values exist (no surrogates, nothing above 10FFFF)
+                raise DenoteError("not a Unicode scalar value")
             out.append(chr(v)); i = j + 1
         else:
             raise DenoteError("escape")
     return "".join(out)
+
+
+def _num(digits: str) -> int:
+    """pest reads repetition counts into u32 and slice bounds into i32: a larger number is not a pest grammar."""
+    if len(digits.lstrip("-").lstrip("0")) > 10:
+        raise DenoteError("number is too large")
+    v = int(digits)
+    if abs(v) > 0xFFFFFFFF:
+        raise DenoteError("number is too large")
+    return v
 
 
 def denote(tree, text: str):
@@ -203,7 +214,7 @@ def d_term(node, text):
         elif nm == "repeat_once_operator":
             e = ("plus", e)
         elif nm in ("repeat_exact", "repeat_min", "repeat_max", "repeat_min_max"):
-            nums = [int(text[c[1]:c[2]]) for c in k[3] if c[0] == "number"]
+            nums = [_num(text[c[1]:c[2]]) for c in k[3] if c[0] == "number"]
             if nm == "repeat_exact":
                 e = ("repn", e, nums[0])
             elif nm == "repeat_min":
@@ -258,7 +269,7 @@ def d_terminal(k, text):
             if c[0] == "range_operator":
                 seen_op = True
             elif c[0] == "integer":
-                v = int(text[c[1]:c[2]])
+                v = _num(text[c[1]:c[2]])
                 if seen_op:
                     b = v
                 else:
